@@ -350,6 +350,10 @@ impl LockFreeMemoryPool {
             return Err(ZiporaError::invalid_data("Cannot allocate zero bytes"));
         }
 
+        // A request so large that rounding it up overflows can never be satisfied
+        if size > usize::MAX - (ALIGN_SIZE - 1) {
+            return Err(ZiporaError::out_of_memory(size));
+        }
         let aligned_size = self.align_size(size);
 
         if aligned_size <= FAST_BIN_THRESHOLD {
@@ -363,6 +367,9 @@ impl LockFreeMemoryPool {
     pub fn deallocate(&self, ptr: NonNull<u8>, size: usize) -> Result<()> {
         if size == 0 {
             return Ok(());
+        }
+        if size > usize::MAX - (ALIGN_SIZE - 1) {
+            return Err(ZiporaError::invalid_data("Size was never allocated by this pool"));
         }
 
         let aligned_size = self.align_size(size);
@@ -558,7 +565,10 @@ impl LockFreeMemoryPool {
     }
 
     /// Deallocate to skip list (for large blocks)  
-    fn deallocate_to_skip_list(&self, _ptr: NonNull<u8>, _size: usize) -> Result<()> {
+    fn deallocate_to_skip_list(&self, ptr: NonNull<u8>, _size: usize) -> Result<()> {
+        // Same pointer validation as the fast-bin path
+        self.ptr_to_offset(ptr)?;
+
         // For now, just track statistics
         if let Some(stats) = &self.stats {
             stats.skip_deallocs.fetch_add(1, Ordering::Relaxed);
